@@ -385,6 +385,7 @@ class ReaderStub:
         self.failed = None
         self.log = []
         self.zero_reads = 0
+        self.fault_budget = 1
 
     def cand(self, i):
         while len(self.ks) <= i:
@@ -406,8 +407,10 @@ class ReaderStub:
             # a failed source keeps failing
             return (0, self.failed)
         mode = 0
-        if self.faults and want > 0:
+        if self.faults and want > 0 and self.fault_budget > 0:
             mode = e.choose(6, 'reader')
+            if mode:
+                self.fault_budget -= 1
         eof = e.load(Ptr(e.gobj['io.EOF'], ()))
         other = Iface('*errors.errorString', Opaque('error', msg='injected reader failure'))
         if mode == 0:
@@ -478,7 +481,7 @@ def install_hash(eng):
         e.assume(z3.And(d >= 0, d < 2 ** 256))
         e.big_bounds[id_of(d)] = (0, 2 ** 256 - 1, d)
         return d
-    eng.digest_int = digest_int
+    eng.digest_int = lambda cells: digest_int(eng, cells)
 
     def h_sum(e, a, ins):
         h, b = a
